@@ -683,6 +683,11 @@ def stripAnswer (toks : List String) : String :=
 def strOfHex (h : String) : List Char := (String.fromUTF8! (ByteArray.mk ((unhex h).map fun (n : Nat) => n.toUInt8).toArray)).toList
 
 def cliAnswer (check file output : String) : String :=
+  -- a file that is not valid UTF-8: the tool stops with an error, the file stays (Strip.cliRunFile, `unreadable`)
+  if file != "none" && (String.fromUTF8? (ByteArray.mk ((unhex file).map fun (n : Nat) => n.toUInt8).toArray)).isNone then
+    (match Strip.cliRunFile (.unreadable (unhex file)) (strOfHex output) (check == "1") with
+     | (_, .unreadable b) => s!"failed {hexOf b}"
+     | _ => "MODELBUG") else
   let f : Option (List Char) := if file == "none" then none else some (strOfHex file)
   let r := Strip.cliRun f (strOfHex output) (check == "1")
   let st := match r.1 with | .ok => "ok" | .failed => "failed"
@@ -699,13 +704,13 @@ def parseOps : List String → List ApiOp
   | "bump" :: i :: n :: rest => .bump i.toNat! n.toNat! :: parseOps rest
   | "clone" :: i :: rest => .clone i.toNat! :: parseOps rest
   | "morph" :: i :: rest => .morph i.toNat! :: parseOps rest
-  | "fresh" :: p :: rest => .fresh (p == "1") :: parseOps rest
+  | "fresh" :: p :: k :: rest => .fresh (p == "1") k.toNat! :: parseOps rest
   | "clonefrom" :: i :: j :: rest => .cloneFrom i.toNat! j.toNat! :: parseOps rest
   | _ :: rest => parseOps rest
   | [] => []
 
 def lexStStr (st : LexSt) : String :=
-  s!"{if st.ty == 0 then "A" else "B"}:{st.start}-{st.stop}:x{st.extras}"
+  s!"{if st.ty == 0 then "A" else "B"}:{st.start}-{st.stop}:x{st.extras}:s{st.srcId}"
 
 def nextResStr (c : Case) : NextRes → String
   | .item (.ok l _ _) => c.names.getD l "?"
@@ -714,13 +719,15 @@ def nextResStr (c : Case) : NextRes → String
   | .diverge => "DIVERGE"
 
 def apiAnswer (ca cb : Case) (src : List Nat) (isPrefix : Bool) (ops : List ApiOp) : String :=
-  let env : ApiEnv := { gA := ca.graph, gB := cb.graph, cbA := ca.cb, cbB := cb.cb, src := src, isPrefix := isPrefix, utf8 := ca.utf8 }
+  -- the second source of the harness: "é" ++ src ++ " zz9" (longer, with its char boundaries shifted by one)
+  let env : ApiEnv := { gA := ca.graph, gB := cb.graph, cbA := ca.cb, cbB := cb.cb, src := src, src2 := [0xC3, 0xA9] ++ src ++ [0x20, 0x7A, 0x7A, 0x39],
+                        isPrefix := isPrefix, utf8 := ca.utf8 }
   let rec go (pool : List LexSt) (ops : List ApiOp) (acc : List String) : List String :=
     match ops with
     | [] => acc.reverse
     | op :: rest =>
       let r := apiStep env pool op
-      let st := r.1.getD r.2.1 ⟨0, 0, 0, 0, false⟩
+      let st := r.1.getD r.2.1 ⟨0, 0, 0, 0, false, 0⟩
       let cse := if st.ty == 0 then ca else cb
       let pre := match r.2.2 with
         | .item x =>
@@ -737,7 +744,7 @@ def apiAnswer (ca cb : Case) (src : List Nat) (isPrefix : Bool) (ops : List ApiO
         | .clonedFrom => "clonefrom"
         | .noLexer => "nolexer"
       go r.1 rest (s!"{pre}={lexStStr st}" :: acc)
-  " ".intercalate (go [⟨0, 0, 0, 7, isPrefix⟩] ops [])
+  " ".intercalate (go [⟨0, 0, 0, 7, isPrefix, 0⟩] ops [])
 
 /-! ## The text pipeline (`Subst.lean`): the predicted calls of `Pattern::compile` -/
 
